@@ -172,6 +172,9 @@ def apply_impl(las, op):
             las.header.scales = np.array([f(x) for x in op[1]])
         elif k == "HO":
             las.header.offsets = np.array([f(x) for x in op[1]])
+        elif k == "al" and len(op) > 3:
+            # the values come as a live scaled view of another object (las.x = other.x)
+            setattr(las, "xyz"[op[1]], getattr(op[3], "xyz"[op[1]]))
         elif k == "al":
             setattr(las, "xyz"[op[1]], np.array([f(x) for x in op[2]]))
         elif k == "ar":
@@ -284,6 +287,21 @@ def run(ck):
                     op = (k, a, v, ck.rng.random() < 0.5)
                 elif k in ("HS", "HO"):
                     op = (k, gen_scal(ck.rng, dyadic)[0 if k == "HS" else 1])
+                elif k == "al" and ck.rng.random() < 0.3:
+                    # las.x = other.x: the coordinates of another object, given as its scaled view; that object has the same
+                    # scale on this axis (mostly) and another offset, or another scale
+                    a = ck.rng.randrange(3)
+                    s2 = ref.hs[a] if ck.rng.random() < 0.7 else gen_scal(ck.rng, dyadic)[0][a]
+                    o2 = ref.ho[a] + ck.rng.choice([0, 1, -3, 64, 500000, -1024]) if ck.rng.random() < 0.8 else gen_scal(ck.rng, dyadic)[1][a]
+                    other = laspy.create(point_format=0)
+                    osc, oof = [1.0, 1.0, 1.0], [0.0, 0.0, 0.0]
+                    osc[a], oof[a] = float(s2), float(o2)
+                    other.header.scales, other.header.offsets = np.array(osc), np.array(oof)
+                    other.points = laspy.ScaleAwarePointRecord.zeros(n, header=other.header)
+                    other.points.array["XYZ"[a]] = np.array([ck.rng.randrange(-10**5, 10**5) for _ in range(n)], dtype="i4")
+                    vals = [Fraction(float(v)) for v in np.array(getattr(other, "xyz"[a]))]
+                    op = ("al", a, vals, other)
+                    ck.count("assign_from_view_of_another_object:" + ("same_scale" if s2 == ref.hs[a] else "other_scale"))
                 elif k in ("al", "ar"):
                     a = ck.rng.randrange(3)
                     s_, o_ = (ref.hs, ref.ho) if k == "al" else (ref.rs, ref.ro)
